@@ -97,7 +97,7 @@ func dealPS(n, t, msgLen int) (map[uint16][]byte, []uint16, error) {
 }
 
 func unitC18deal(e common.Env, p *common.Part) {
-	p.Rule = "(i) secrets dealt with the exported SSS.Gen (BLS: one polynomial; PS: x and every y_j), shares wrapped as stored data, then for every (n,t) with 2<=t<=n<=N and EVERY subset of size >= t (PRNG order of signers) the partial signatures are aggregated with the library's Lagrange coefficients and verified under g2^P(0): BLS N=7 quick / 11 thorough, PS N=5 quick / 6 thorough; distinct key = (scheme, n, t, subset); non-trivial always; the subset space of each (scheme,n,t) is enumerated completely; plus large committees with high thresholds (BLS (17,17) (18,17) (20,16) (24,15) (32,14) (40,21) (64,12) (100,11), PS (18,17) (24,15)) with the t lowest points, the t highest, everybody and PRNG subsets"
+	p.Rule = "(i) secrets dealt with the exported SSS.Gen (BLS: one polynomial; PS: x and every y_j), shares wrapped as stored data, then for every (n,t) with 2<=t<=n<=N and EVERY subset of size >= t (PRNG order of signers) the partial signatures are aggregated with the library's Lagrange coefficients and verified under g2^P(0): BLS N=7 quick / 11 thorough, PS N=5 quick / 6 thorough; distinct key = (scheme, n, t, subset); non-trivial always; the subset space of each (scheme,n,t) is enumerated completely; plus large committees with high thresholds (BLS (17,17) (18,17) (20,16) (24,15) (32,14) (40,21) (64,12) (100,11), PS (18,17) (24,15)) with the t lowest points, the t highest, everybody and PRNG subsets; plus large committees with low thresholds (BLS and PS (70,2) (66,3) (64,2) (130,2)): families of subsets that share all points but one, the differing point sweeping the committee in ascending order, interleaved with (t+1)-sets"
 	type job struct {
 		sch  string
 		n, t int
@@ -123,6 +123,15 @@ func unitC18deal(e common.Env, p *common.Part) {
 		j := job{"ps", nt[0], nt[1]}
 		jobs, large[j] = append(jobs, j), true
 	}
+	// large committees with LOW thresholds: families of subsets that share all points but one, the differing point sweeping the
+	// whole committee (whatever an implementation remembers from one combination must not leak into the next one)
+	family := map[job]bool{}
+	for _, sch := range []string{"bls", "ps"} {
+		for _, nt := range [][2]int{{70, 2}, {66, 3}, {64, 2}, {130, 2}} {
+			j := job{sch, nt[0], nt[1]}
+			jobs, large[j], family[j] = append(jobs, j), true, true
+		}
+	}
 	for i, j := range jobs {
 		if !e.Mine(i) || p.ViolationCount() >= 3 {
 			continue
@@ -147,7 +156,37 @@ func unitC18deal(e common.Env, p *common.Part) {
 		rng.Read(digest)
 		checked := 0
 		subs := [][]uint16(nil)
-		if large[j] {
+		if family[j] {
+			// base: t-1 points (PRNG, every second family among the low ones); then base + h for every other point h in ascending
+			// order (quick: every third below 60, every one from 60 on), and after each t-set the (t+1)-set with the highest point
+			for fam := 0; fam < e.Pick(2, 6); fam++ {
+				in := map[uint16]bool{}
+				var base []uint16
+				for len(base) < j.t-1 {
+					x := parties[rng.Intn(j.n)]
+					if fam%2 == 0 {
+						x = parties[rng.Intn(10)]
+					}
+					if !in[x] {
+						in[x] = true
+						base = append(base, x)
+					}
+				}
+				for hi, h := range parties {
+					if in[h] || (!e.Thorough() && hi < 60 && hi%3 != 0) {
+						continue
+					}
+					sub := append(append([]uint16{}, base...), h)
+					sort.Slice(sub, func(a, b int) bool { return sub[a] < sub[b] })
+					subs = append(subs, sub)
+					if top := parties[j.n-1]; !in[top] && h != top && hi%4 == 0 {
+						sub2 := append(append([]uint16{}, sub...), top)
+						sort.Slice(sub2, func(a, b int) bool { return sub2[a] < sub2[b] })
+						subs = append(subs, sub2)
+					}
+				}
+			}
+		} else if large[j] {
 			// the t lowest points, the t highest, everybody, and PRNG subsets of size t..n
 			subs = append(subs, append([]uint16{}, parties[:j.t]...), append([]uint16{}, parties[j.n-j.t:]...), append([]uint16{}, parties...))
 			for k := 0; k < e.Pick(3, 80); k++ {
